@@ -191,6 +191,12 @@ impl Ctx {
 
 const HARNESS_PANIC: &str = "HARNESS-PANIC";
 
+/// A panic that escaped `lib()`: raised inside the library's own source (an in-contract call panicked,
+/// which every property forbids) or in the harness (a harness fault, exit 2)?
+fn panic_in_library(msg: &str) -> bool {
+    msg.rsplit_once(" @ ").map(|(_, loc)| loc.contains("ffuzzy/src/")).unwrap_or(false)
+}
+
 /// Generated search: `cases` cases split over the workers; `strat()` builds the strategy in
 /// each worker; `eval` judges one case.
 pub fn run_generated<C, S, FS, FE>(
@@ -286,9 +292,13 @@ where
                                         .with(|p| p.borrow_mut().take())
                                         .unwrap_or_default();
                                     *failed.borrow_mut() = true;
-                                    *harness_fault.borrow_mut() = true;
                                     stop.store(true, Ordering::Relaxed);
-                                    Err(TestCaseError::fail(format!("{}: {}", HARNESS_PANIC, p)))
+                                    if panic_in_library(&p) {
+                                        Err(TestCaseError::fail(format!("the library panicked on an in-contract call: {}", p)))
+                                    } else {
+                                        *harness_fault.borrow_mut() = true;
+                                        Err(TestCaseError::fail(format!("{}: {}", HARNESS_PANIC, p)))
+                                    }
                                 }
                             }
                         });
@@ -408,7 +418,11 @@ where
                                 }
                                 Err(_) => {
                                     let p = LAST_PANIC.with(|p| p.borrow_mut().take()).unwrap_or_default();
-                                    fail = Some((lo, format!("{}: {}", HARNESS_PANIC, p), true));
+                                    fail = if panic_in_library(&p) {
+                                        Some((lo, format!("the library panicked on an in-contract call (block starting at index {}): {}", lo, p), false))
+                                    } else {
+                                        Some((lo, format!("{}: {}", HARNESS_PANIC, p), true))
+                                    };
                                     stop.store(true, Ordering::Relaxed);
                                     break;
                                 }
@@ -489,11 +503,12 @@ where
             }
             Err(_) => {
                 let p = LAST_PANIC.with(|p| p.borrow_mut().take()).unwrap_or_default();
+                let in_lib = panic_in_library(&p);
                 failure = Some(Failure {
                     subcheck: name.to_string(),
-                    message: format!("{}: {}", HARNESS_PANIC, p),
+                    message: if in_lib { format!("the library panicked on an in-contract call: {}", p) } else { format!("{}: {}", HARNESS_PANIC, p) },
                     case: serde_json::to_value(c).unwrap_or(Value::Null),
-                    harness_fault: true,
+                    harness_fault: !in_lib,
                 });
                 break;
             }
